@@ -122,7 +122,12 @@ class StrokeRegion:
         self.SP = np.array(smooth_pts, dtype=float).reshape(-1, 2)
         self.SS = np.array(smooth_s, dtype=float)
         self.SI = np.array(smooth_i, dtype=int)
-        self.tau = (curve_tau if self.has_curves else 0.01 * self.half + 1e-3) + conic_tol
+        # conics (and with them picosvg's conic->quad tolerance, which is in root units whatever the local scale)
+        # only arise from round caps/joins and curved centre lines; a polyline with butt/square caps and
+        # miter/bevel joins is outlined with straight segments only
+        if not (self.has_curves or cap == "round" or join == "round"):
+            conic_tol = 0.0
+        self.tau = (curve_tau if self.has_curves else 0.01 * self.half + min(1e-3, 0.02 * self.half)) + conic_tol
         K = 1.0
         if cap == "square":
             K = max(K, math.sqrt(2.0))
